@@ -1,5 +1,6 @@
 (* C10 -- A subscription delivers exactly the requested range. *)
-From LB Require Import Base.Prelude Log.Model Log.Compact Log.Proofs Log.Refine Log.CompactProofs Log.CommittedProofs Api.Range Api.RangeProofs Log.HwWaitRo Log.HwWaitRoProofs.
+From LB Require Import Base.Prelude Log.Model Log.Compact Log.Proofs Log.Refine Log.CompactProofs Log.CommittedProofs Api.Range Api.RangeProofs Api.RangeOrder Log.HwWaitRo Log.HwWaitRoProofs.
+From Coq Require Import Sorted.
 Open Scope Z_scope.
 
 (* Forward: for every start and stop position, on any well-formed log (dense, compacted with
@@ -23,6 +24,29 @@ Theorem C10_reverse_range_exact : forall l sp tp stop, wf l -> l_hw l <> -1 ->
   fst (subscribe l sp tp true) = map r_off (rev (filter (in_rev_range eff stop) (all_recs l))).
 Proof. exact subscribe_reverse_exact. Qed.
 Print Assumptions C10_reverse_range_exact.
+
+(* "In offset order, each once": what a forward subscription delivers is strictly increasing
+   (so nothing twice), inside [start, HW] and not beyond the stop offset ... *)
+Theorem C10_forward_in_order_each_once : forall l sp tp stop, wf l -> oldest l <> -1 ->
+  (exists r, In r (all_recs l) /\ r_off r = l_hw l) ->
+  resolve_stop l tp = Ok stop -> resolve_start l sp <= l_hw l ->
+  (stop = -1 \/ resolve_start l sp <= stop) ->
+  let out := fst (subscribe l sp tp false) in
+  StronglySorted Z.lt out /\ NoDup out /\
+  Forall (fun o => resolve_start l sp <= o <= l_hw l /\ (stop = -1 \/ o <= stop)) out.
+Proof. exact forward_ordered_once. Qed.
+Print Assumptions C10_forward_in_order_each_once.
+
+(* ... and what a reverse one delivers is strictly decreasing, at or below the effective start
+   and not below the stop offset. *)
+Theorem C10_reverse_in_order_each_once : forall l sp tp stop, wf l -> l_hw l <> -1 ->
+  resolve_stop l tp = Ok stop -> (stop = -1 \/ stop <= resolve_start l sp) ->
+  let eff := if (l_hw l <? resolve_start l sp) || (resolve_start l sp =? -1) then l_hw l else resolve_start l sp in
+  eff <= newest l ->
+  let out := fst (subscribe l sp tp true) in
+  NoDup out /\ StronglySorted Z.lt (rev out) /\ Forall (fun o => o <= eff /\ (stop = -1 \/ stop <= o)) out.
+Proof. exact reverse_once. Qed.
+Print Assumptions C10_reverse_in_order_each_once.
 
 (* A range whose stop lies before its start in the direction of reading is refused. *)
 Theorem C10_empty_range_refused : forall l sp tp stop (rv : bool), resolve_stop l tp = Ok stop -> stop <> -1 ->
